@@ -235,13 +235,61 @@ def structural_probes():
     for ptv, e in ((0.0, "rej"), (1.0, "rej"), (1e-9, "ok"), (1 - 1e-9, "ok")):
         out.append((f"risk_matrix_score probability threshold={ptv}", lambda ptv=ptv: risk_matrix_score(rf, rf, dw.assign_coords(pt=[ptv]), "sev", "pt"), e))
         out.append((f"matrix_weights_to_array probability threshold={ptv}", lambda ptv=ptv: matrix_weights_to_array(np.array([[1.0, 2.0]]), "sev", [0, 1], "pt", [ptv]), e))
+    # threshold coordinates must be strictly increasing wherever a CDF is consumed: ties and decreases are rejected
+    from scores.processing.cdf import decreasing_cdfs
+    cdf4 = xr.DataArray([[0.0, 0.4, 0.6, 1.0]], dims=["s", "threshold"], coords={"threshold": [0.0, 1.0, 2.0, 3.0]})
+    for label, coords, e in (("strictly increasing", [0.0, 1.0, 2.0, 3.0], "ok"), ("a tie", [0.0, 1.0, 1.0, 2.0], "rej"), ("a tie at the end", [0.0, 1.0, 2.0, 2.0], "rej"),
+                             ("a decrease", [0.0, 2.0, 1.0, 3.0], "rej"), ("decreasing", [3.0, 2.0, 1.0, 0.0], "rej")):
+        c4 = cdf4.assign_coords(threshold=coords)
+        out.append((f"decreasing_cdfs threshold coordinates with {label}", lambda c=c4: decreasing_cdfs(c, "threshold", 0.1), e))
+        out.append((f"adjust_fcst_for_crps threshold coordinates with {label}", lambda c=c4: P.adjust_fcst_for_crps(c, "threshold", ob1, decreasing_tolerance=0.1), e))
+        out.append((f"crps_cdf threshold coordinates with {label}", lambda c=c4: P.crps_cdf(c, ob1), e))
+        out.append((f"crps_cdf_brier_decomposition threshold coordinates with {label}", lambda c=c4: P.crps_cdf_brier_decomposition(c, ob1), e))
     return out
+
+
+def tw_interval_probes(ctx):
+    """every ordering of the four end points of a trapezoidal threshold weight (values from -inf, 0..3, +inf), for the five
+    tw_* scores: accepted exactly when  one = (b, c) with b < c,  positive = (a, d) with a < b (or a = b = -inf) and
+    c < d (or c = d = +inf), an outer end point infinite only where the inner one is -- the documented domain; plus the rectangular case"""
+    import itertools
+    Sc = S()
+    C = Sc.continuous
+    f, o = base()
+    inf = float("inf")
+    vals = [-inf, 0.0, 1.0, 2.0, 3.0, inf]
+    fns = {"tw_squared_error": lambda *a, **k: C.tw_squared_error(f, o, *a, **k), "tw_absolute_error": lambda *a, **k: C.tw_absolute_error(f, o, *a, **k),
+           "tw_quantile_score": lambda *a, **k: C.tw_quantile_score(f, o, 0.3, *a, **k), "tw_expectile_score": lambda *a, **k: C.tw_expectile_score(f, o, 0.3, *a, **k),
+           "tw_huber_loss": lambda *a, **k: C.tw_huber_loss(f, o, 1.5, *a, **k)}
+    combos = list(itertools.product(vals, repeat=4))
+    rng = ctx.rng
+    for name, fn in fns.items():
+        pick = combos if ctx.tier == "thorough" else rng.sample(combos, 120 if name == "tw_squared_error" else 50)
+        # the full-line weight with every trapezoid: the cheapest thing to special-case
+        pick = pick + [(a, -inf, inf, d) for a in vals for d in vals]
+        for a, b, c, d in pick:
+            want = (b < c) and (a < b or (a == b and a == -inf)) and (c < d or (c == d and d == inf)) \
+                and not (abs(a) == inf and a != b) and not (abs(d) == inf and d != c)     # an infinite outer end only with an infinite inner end
+            r = core.call_impl(fn, (b, c), interval_where_positive=(a, d))
+            ctx.case(("tw-trap", name, a, b, c, d))
+            ctx.count("tw_interval_probe")
+            if (r[0] == "ok") != want or (r[0] != "ok" and r[1] not in REJECT):
+                ctx.violation(f"{name}: interval_where_one=({b}, {c}), interval_where_positive=({a}, {d}): expected {'acceptance' if want else 'ValueError'}, got "
+                              f"{'a result' if r[0] == 'ok' else r[1]}", {"fn": name, "interval_where_one": [b, c], "interval_where_positive": [a, d]},
+                              "ok" if want else "rejection", "ok" if r[0] == "ok" else r[1])
+        for b, c in itertools.product(vals, repeat=2):
+            r = core.call_impl(fn, (b, c))
+            ctx.case(("tw-rect", name, b, c))
+            ctx.count("tw_interval_probe")
+            if (r[0] == "ok") != (b < c) or (r[0] != "ok" and r[1] not in REJECT):
+                ctx.violation(f"{name}: interval_where_one=({b}, {c}): expected {'acceptance' if b < c else 'ValueError'}, got {'a result' if r[0] == 'ok' else r[1]}",
+                              {"fn": name, "interval_where_one": [b, c]}, "ok" if b < c else "rejection", "ok" if r[0] == "ok" else r[1])
 
 
 REJECT = {"err:ValueError", "err:TypeError"}
 
 
-def run(ctx):
+def run(ctx, use_model=True):
     near = 0
     for name, call, dom, entry, margs in scalar_probes():
         vals = boundary_values(("nonneg",) if dom[0] == "nonneg_le1" else dom)
@@ -263,7 +311,7 @@ def run(ctx):
                 if got_ok != want_ok or (not got_ok and r[1] not in REJECT):
                     ctx.violation(f"{name}={v!r} ({rep}): expected {'acceptance' if want_ok else 'ValueError/TypeError'}, got {'a result' if got_ok else r[1]}",
                                   case, "ok" if want_ok else "rejection", "ok" if got_ok else r[1])
-                if entry is not None and rep == "float":
+                if use_model and entry is not None and rep == "float":
                     m = ctx.model(entry, margs(Fraction(float(v))))
                     m_ok = (m == "ok")
                     if m_ok != got_ok:
@@ -277,5 +325,11 @@ def run(ctx):
         ctx.count("structural_probe")
         if got_ok != (want == "ok") or (not got_ok and r[1] not in REJECT):
             ctx.violation(f"{name}: expected {want}, got {'a result' if got_ok else r[1]}", {"probe": name}, want, "ok" if got_ok else r[1])
+    tw_interval_probes(ctx)
     ctx.exhaustive = True
     ctx.note(f"{near} probes lie within 1e-6 of a boundary; NaN parameters are outside the property's quantifier and are not probed")
+
+
+def run_without_model(ctx):
+    """the regenerated guards do not build against the current source: every probe of the implementation still runs"""
+    run(ctx, use_model=False)
